@@ -834,22 +834,22 @@ Qed.
      object (replacing the integer object changes the Count the node reads while the leaves stay).
    [tree_op_dom_ref d t o -> tree_op_dom d t o]; on a [page_doc] (direct Counts, dictionary leaves) the two coincide up to the
    Type clause (the paths are empty).  renumber_objects and the add_xobject name clause: as in C11_count_invariant.
-   PARTIAL: delete_object is not lifted ([lifted o]; a program of the theorem contains no delete_object call).  Its proof on
-   [page_doc] goes through [page_doc_after], whose [page_doc_ref] version asks "no Count chain of ANY dictionary passes the
-   deleted id"; for an id outside the support that holds for the tree's Counts only.  Everything else of [step] is lifted:
-   new_object_id, add_object, set_object, remove_object, prune_objects, delete_pages, compress, decompress, the four content
-   operations, the three resource operations, get_page_content, save.
+   Every operation of [step] but renumber_objects is covered: new_object_id, add_object, set_object, delete_object,
+   remove_object, prune_objects, delete_pages, compress, decompress, the four content operations, the three resource
+   operations, get_page_content, save.
    Method (Proofs/EditProofsTreeRef2.v): [page_doc_ref] reads the five structural entries of dictionary objects ([stable]) and
    the reference / integer objects on its paths; an operation that keeps both ON THE SUPPORT ([frame_on]) keeps the tree;
-   every operation but set_object / prune_objects keeps them everywhere (they replace dictionaries or streams or insert at a
-   fresh id), set_object stays off the support, prune_objects keeps what the trailer reaches and the support is reachable. *)
-Theorem C11_count_invariant_ref_step_partial :
+   every operation but set_object / prune_objects / delete_object keeps them everywhere (they replace dictionaries or streams or
+   insert at a fresh id), set_object stays off the support, prune_objects keeps what the trailer reaches and the support is
+   reachable; delete_object(p) with p off the support strips the references to p from the other objects: a node's dictionary
+   keeps Type / Kids / Parent, its Count chain does not pass p ([read_count_del3]), no page's path passes p ([leads_del]). *)
+Theorem C11_count_invariant_ref_step :
   forall O d t o,
-    doc_wf d -> alloc_ok d -> page_doc_ref d t -> hbound t -> tree_op_dom_ref d t o -> lifted o ->
+    doc_wf d -> alloc_ok d -> page_doc_ref d t -> hbound t -> tree_op_dom_ref d t o ->
     page_doc_ref (fst (step O d o)) (tree_after d t o) /\ hbound (tree_after d t o).
 Proof. exact step_page_doc_ref. Qed.
 
-Theorem C11_count_invariant_ref_partial :
+Theorem C11_count_invariant_ref :
   forall O ops d t,
     doc_wf d -> alloc_ok d -> page_doc_ref d t -> hbound t -> tree_prog_dom_ref O d t ops ->
     let d' := run_ops O d ops in let t' := tree_end O d t ops in
@@ -867,8 +867,9 @@ Theorem C11_tree_op_dom_ref_facts :
 Proof. exact (conj tree_op_dom_ref_dom (conj tree_support_contains (conj support_reach sup_in_list))). Qed.
 
 (* non-vacuity: on the document of C11_delete_pages_tree_indirect_ref_example: add an object (15), replace it, append content to
-   page 11, add an XObject name to page 11, delete page 2 (the reference object 5), prune (drops 12, 13, 15 and the rest the
-   trailer no longer reaches), save, compress, delete page 1 twice.  15 is outside the support; the integer object 8 (Count of
+   page 11, add an XObject name to page 11 (value: a reference to 15), delete object 15 (the reference is stripped), delete
+   page 2 (the reference object 5), prune (drops 12, 13 and the rest the trailer no longer reaches), save, compress, delete
+   page 1 twice.  15 is outside the support; the integer object 8 (Count of
    2, behind 7) and the dictionary object 13 (page 5, behind 12) are in it *)
 Theorem C11_count_invariant_ref_example :
   doc_wf tree_doc_ref /\ alloc_ok tree_doc_ref /\ page_doc_ref tree_doc_ref tree_ex_ind /\ hbound tree_ex_ind /\
@@ -944,7 +945,7 @@ Print Assumptions C11_delete_pages_tree_indirect.
 Print Assumptions C11_delete_page_step_ref.
 Print Assumptions C11_page_doc_ref_contains_page_doc_ind.
 Print Assumptions C11_delete_pages_tree_indirect_ref_example.
-Print Assumptions C11_count_invariant_ref_step_partial.
-Print Assumptions C11_count_invariant_ref_partial.
+Print Assumptions C11_count_invariant_ref_step.
+Print Assumptions C11_count_invariant_ref.
 Print Assumptions C11_tree_op_dom_ref_facts.
 Print Assumptions C11_count_invariant_ref_example.
